@@ -8,7 +8,11 @@
    message returns a non-negative count or an error for EVERY byte string: the model's Panic outcomes (slice bounds,
    index, state mismatch) and its fuel exhaustion (the TLV loop consumes at least one byte per iteration) are
    unreachable (C04_field_no_panic, C04_message_no_panic). The size of what the decoders and
-   primitive fields produce is bounded by the bytes actually consumed (C04_decode_output_bounded, C04_prim_size_bounded).
+   primitive fields produce is bounded by the bytes actually consumed (C04_decode_output_bounded, C04_prim_size_bounded),
+   and so is what whole trees and whole messages hold after an accepted Unpack: the bytes of every populated primitive at
+   every depth are at most four times the bytes consumed - announced lengths never enter (C04_tree_size_bounded,
+   C04_message_size_bounded; the shipped specifications satisfy the hypotheses: C04_shipped_specs_sized). Track fields
+   answer every byte string with a count or an error (C04_track_no_panic).
    Wall-clock time and the allocator's behaviour are runtime behaviour
    observed by the harness only (each case runs in a child process under ulimit -v and a timeout). *)
 From Iso Require Import Model.Base Model.Padding Model.Encoding Model.Prefix Model.Bitmap Model.Spec Model.Field
@@ -89,3 +93,36 @@ Print Assumptions C04_track_no_panic.
 Theorem C04_track_setbytes_no_panic : forall k t raw, match snd (t_setbytes k t raw) with Ok _ | Err _ => True | _ => False end.
 Proof. exact t_setbytes_total. Qed.
 Print Assumptions C04_track_setbytes_no_panic.
+
+(* allocation for whole trees: what a field holds after an accepted Unpack - the bytes of every populated primitive at every
+   depth (tree_size) - is at most four times the bytes the field consumed from the input, for every well-formed specification
+   whose primitives use the default packer; an announced length never enters the bound *)
+From Iso Require Import Proofs.SizeTree Properties.C01.
+Theorem C04_tree_size_bounded : forall s, wfs s -> plain s -> forall st0 d st n, unpack_f s st0 d = (st, UOk n) ->
+  tree_size s st <= 4 * n /\ 0 <= n.
+Proof. exact unpack_size_tree. Qed.
+Print Assumptions C04_tree_size_bounded.
+(* the hypotheses hold of the nested example specification of C01, and its accepted encoding of 12 bytes leaves 1 byte held
+   (the Numeric element holds none, the Binary element one) *)
+Example C04_ex_tree : wfs c_ex /\ plain c_ex /\
+  (let r := unpack_f c_ex (fresh c_ex) [x31; x30; x30; x31; x30; x31; x37; x30; x32; x01; x41; x42] in
+   snd r = UOk 12 /\ tree_size c_ex (fst r) = 1).
+Proof.
+  split; [|split; [cbn; tauto|vm_compute; split; reflexivity]].
+  cbn [wfs c_ex]. split; [lia|]. split; [repeat constructor; cbn; intuition discriminate|]. split; [cbn; left; lia|]. cbn. lia.
+Qed.
+
+(* whole messages: what a message holds after an accepted Unpack - the MTI and every populated data element at every depth -
+   is at most four times the bytes consumed; the five shipped specifications (regenerated on every run) satisfy the
+   hypotheses (sized: non-negative lengths, default packers, distinct ids from 2 up, well-formed elements) *)
+Theorem C04_message_size_bounded : forall S m0 d m n, sized S -> m_unpack S m0 d = (m, UOk n) -> msg_size S m <= 4 * n /\ 0 <= n.
+Proof. intros S m0 d m n (H1 & H2 & H3 & H4). apply message_size_bounded; assumption. Qed.
+Print Assumptions C04_message_size_bounded.
+Theorem C04_shipped_specs_sized : forall name t, In (name, t) shipped_specs -> exists MS, spec_of_string t = Some MS /\ sized MS.
+Proof.
+  assert (H : forallb (fun nt : String.string * String.string => match spec_of_string (snd nt) with Some MS => sizedb MS | None => false end) shipped_specs = true)
+    by (vm_compute; reflexivity).
+  intros name t Hi. rewrite forallb_forall in H. specialize (H (name, t) Hi). cbn [snd] in H.
+  destruct (spec_of_string t) as [MS|]; [|discriminate]. exists MS. split; [reflexivity|apply sizedb_sound; exact H].
+Qed.
+Print Assumptions C04_shipped_specs_sized.
